@@ -188,7 +188,10 @@ def run(ctx):
         ups = [n for n in ast.walk(fi.node) if isinstance(n, ast.Call)
                and isinstance(n.func, ast.Attribute) and n.func.attr == "upper"]
         if not ups:
-            raise AnalysisError("from_ical: neither raw comparisons nor .upper() found")
+            # the loop was restructured (comparisons and case folding live in helpers): the
+            # shape rule has nothing to look at; C09/CASE-MODEL interprets the loop and decides
+            ctx.note("Component.from_ical: neither raw-case comparisons nor .upper() in the function "
+                     "itself; the raw-case taint rule does not apply (C09/CASE-MODEL decides)")
     # (BEGIN/END tests and the component lookup: decided by C09/CASE-MODEL)
     # caller-supplied names in add/_encode
     for meth in ("add", "_encode", "decoded", "_decode"):
